@@ -494,7 +494,13 @@ func genSeqScript(seed uint64, profile string) []string {
 	}
 	g.add("cfg bound=%s expiry=%s refresh=%s exec=%s clock0=%d%s", bound, expiry, refresh, exec, g.clock, capS)
 	if strings.HasPrefix(expiry, "custom") {
-		g.lines = append(g.lines, tblLine(r, "expcreate", g.nkeys, g, false), tblLine(r, "expupdate", g.nkeys, g, true), tblLine(r, "expread", g.nkeys, g, true))
+		// in half of the scripts reads leave the deadline alone: then "reads only ever extend deadlines" holds and the sweep
+		// guarantee (C13) is checked for per-entry durations too — an overwrite may well SHORTEN a deadline
+		expread := tblLine(r, "expread", g.nkeys, g, true)
+		if r.chance(0.5) {
+			expread = "tbl expread *=0"
+		}
+		g.lines = append(g.lines, tblLine(r, "expcreate", g.nkeys, g, false), tblLine(r, "expupdate", g.nkeys, g, true), expread)
 	}
 	if strings.HasPrefix(refresh, "custom") {
 		g.lines = append(g.lines, tblLine(r, "refcreate", g.nkeys, g, false), tblLine(r, "refupdate", g.nkeys, g, true),
